@@ -189,10 +189,7 @@ def tsan_pass(ctx, ex, configs, reps, stats):
 def run(ctx):
     quick = ctx.tier == 'quick'
     stats = {'schedules': 0, 'steps': 0, 'per_config': {}}
-    plan = [(c, 1) for c in CONFIGS_QUICK] if quick else [(c, 2) for c in CONFIGS_THOROUGH]
-    if quick:
-        plan[0] = (CONFIGS_QUICK[0], 2)
-        plan[3] = (CONFIGS_QUICK[3], 2)
+    plan = [(c, 2) for c in CONFIGS_QUICK] if quick else [(c, 2) for c in CONFIGS_THOROUGH]
     with ThreadPoolExecutor(max_workers=16) as ex:
         # determinism gate: the same schedule twice gives the same observation
         for (b, e) in CONFIGS_QUICK[:3]:
@@ -204,8 +201,11 @@ def run(ctx):
                 ctx.incomplete('C17 threads: deadline before config %s|%s' % (b, e))
                 break
             explore_config(ctx, ex, b, e, bound, stats)
-        if not quick and ctx.time_left() > 600:
-            explore_config(ctx, ex, 'block1,block2', 'r1,r2', 3, stats)
+        if not quick:
+            for (b, e) in (('block1,cancel1', 'r1'), ('block1,close', 'r1'), ('block1,dispatch', 'r1'), ('block1,block2', 'r1,r2')):
+                if ctx.time_left() > 500:
+                    stats['per_config'].pop('%s|%s' % (b, e), None)
+                    explore_config(ctx, ex, b, e, 3, stats)
         tsan_pass(ctx, ex, CONFIGS_QUICK if quick else CONFIGS_THOROUGH, 4 if quick else 20, stats)
     stats['bound'] = 'deviation bound per config: see per_config (devK = schedules with exactly K non-default choices)'
     return stats
